@@ -71,6 +71,9 @@ def sanitizer_keys(text):
         m = re.search(r"ERROR: AddressSanitizer: (\S+)", ln)
         if m:
             kind = m.group(1).rstrip(":")
+            if kind == "attempting":
+                mm = re.search(r"AddressSanitizer: attempting (\S+)", ln)
+                kind = mm.group(1) if mm else kind
             fr = _lib_frames(_first_stack(lines, i))
             keys.append("asan:%s:%s" % (kind, "<".join(fr) or "?"))
             continue
